@@ -100,6 +100,38 @@ def usable(c):
     return True
 
 
+def binary_stats(cases):
+    """what the binary tie values contain (the structural theorem now covers map keys: count them)"""
+    st = {"values": 0, "with_map_keys": 0, "map_keys_nested_in_boxes": 0, "with_label": 0, "boxes": 0, "max_nesting": 0}
+
+    def walk(v, depth, top):
+        st["max_nesting"] = max(st["max_nesting"], depth)
+        has = v["keys"] is not None
+        if has:
+            walk(v["keys"], depth + 1, False)
+        if v["t"] == "box":
+            for x in v["d"]:
+                has = walk(x, depth + 1, False) or has
+        return has
+
+    for c in cases:
+        if c["k"] != "binary":
+            continue
+        v = c["v"]
+        st["values"] += 1
+        if v["keys"] is not None:
+            st["with_map_keys"] += 1
+        elif walk(v, 0, True):
+            st["map_keys_nested_in_boxes"] += 1
+        else:
+            walk(v, 0, True)
+        if v["lbl"]:
+            st["with_label"] += 1
+        if v["t"] == "box":
+            st["boxes"] += 1
+    return st
+
+
 def base_rowlen(cases):
     """how the implementation's row length compares with the digits the largest entry needs"""
     res = {"cases": 0, "exact": 0, "one_longer": 0, "short": 0, "other": 0}
@@ -131,7 +163,7 @@ def run(r):
         "base: scalar base >= 2, |n| < b^len (C18_antibase_base) resp. the floor of the float logarithm at most one digit short (est_close, C18_antibase_base_auto)",
         "utf8/utf16: code points are Unicode scalar values (what a uiua character is); utf8_un_utf8: the decoder accepted the bytes",
         "bytes: every integer format u8 ... i128 (width >= 1 byte), values within the format's range, element count = product of shape",
-        "binary (C18_from_binary_to_binary, C18_binary_num_roundtrip): values WITHOUT map keys, flags <= 15, label valid UTF-8 shorter than 2^32, rank <= 255, dims < 2^32, product of the non-zero dims <= 2^63, nesting <= 32, element count = product of shape (C05), f64 patterns < 2^64, the numeric casts satisfy num_laws (inhabited; tied for f64). The result is bit-exact (negative zero and NaN payloads included); numbers 0..255 may come back in byte storage. Map keys inside binary are covered by the tie only",
+        "binary (C18_from_binary_to_binary, C18_binary_num_roundtrip): every value, map arrays included (the keys are a well-formed value with as many rows as the array, counted as one nesting level; the model takes the keys in the normalized order `°map` returns and does not represent the hash table: distinctness of the keys and the rebuilt table are C16's), flags <= 15, label valid UTF-8 shorter than 2^32, rank <= 255, dims < 2^32, product of the non-zero dims <= 2^63, nesting <= 32, element count = product of shape (C05), f64 patterns < 2^64, the numeric casts satisfy num_laws (inhabited; tied for f64). The result is bit-exact (negative zero and NaN payloads included); numbers 0..255 may come back in byte storage, byte keys come back as numbers (norm_keys)",
         "json: what the documentation shows (lists of finite numbers, strings, heterogeneous boxed lists, maps with string keys); csv: rank-2 arrays of boxed strings; compress: byte strings x gzip/zlib/deflate",
     ]
     if not r.harness(["c18"]):
@@ -171,6 +203,7 @@ def run(r):
     r.coverage["tie"] = {"kind": "C", "cases": len(used), "skipped": len(cases) - len(used), "by_kind": kinds, "mismatches": len(mism),
                          "mismatch_by_kind": mk, "decoder_error_cases": errs,
                          "base_row_length": base_rowlen(used),
+                         "binary_values": binary_stats(used),
                          "binary_encoded_bytes": sum(len(c["out"]["d"]) for c in used if c["k"] == "binary" and c["out"])}
     r.log("tie: %d cases %s, %d mismatches %s" % (len(used), kinds, len(mism), mk))
     for k in ("bits", "utf8", "binary", "bytes"):
